@@ -340,6 +340,8 @@ func runCase(ctx *runner.Ctx, k cs) {
 		runResult(ctx, k)
 	case "program":
 		runProgram(ctx, k)
+	case "split":
+		runSplit(ctx, k)
 	}
 }
 
